@@ -24,7 +24,7 @@ func refSumValues(cols [][]wt.Value, k int) wt.Value {
 }
 
 func VerifC10_Sum() {
-	h := vrtCmdHeader(vrtCmdLayoutsWide(), wt.Sum, 0.5)
+	h := vrtCmdHeader(vrtCmdLayouts(), wt.Sum, 0.5)
 	na := len(h.ArchiveInfoList())
 	now := vrtCmdInstant(h, "now")
 	vrtCmdAssumeClock(h, now)
